@@ -512,7 +512,7 @@ def r10_3(ck):
 
 
 REGISTRIES = ['processes', 'steps', 'topology', 'flow', 'process_paths',
-              '_step_paths', '_step_graph']
+              '_step_paths', '_step_graph', 'front']
 
 
 def r10_4(ck):
@@ -543,6 +543,21 @@ def r10_4(ck):
                         'starts_with(%s,%s)' % (key, param) for a in g) and \
                         (isinstance(lp.iter, ast.Call) and A.call_name(
                             lp.iter) in ('list', 'tuple', 'sorted', 'copy'))
+        elif reg == 'front':
+            # the schedule (due time, update in flight) goes with the
+            # process: a process created at the same path later in the same
+            # batch must not inherit it
+            cands = [c for c in A.calls_in(f.node, 'pop')
+                     if A.unparse(A.call_receiver(c)) == 'self.front']
+            cands += [d for d in A.walk_no_nested(f.node)
+                      if isinstance(d, ast.Delete) and A.unparse(
+                          d.targets[0]).startswith('self.front[')]
+            for c in cands:
+                g = cfg.guards(cfg.node(c))
+                if any(a[0] == 'truthy' and a[1].replace(' ', '').startswith(
+                        'starts_with(') and a[1].replace(' ', '').endswith(
+                        ',%s)' % param) for a in g):
+                    ok = True
         else:
             for c in A.calls_in(f.node, 'remove'):
                 if 'self._step_graph' in A.unparse(c.func):
@@ -577,6 +592,9 @@ def r10_4(ck):
                    'deleted subtree: %s' % (
                        reg, 'deleted processes/steps keep being scheduled'
                        if 'path' in reg or 'graph' in reg else
+                       'a process created at the same path later in the '
+                       'same batch inherits the due time and the update in '
+                       'flight of the deleted one' if reg == 'front' else
                        'the published composite keeps deleted entries'))
     ck.floor('R10.4', n, 0, 'registries')
     sw = ck.fn('starts_with', 'core.engine')
@@ -673,11 +691,13 @@ def r10_6(ck):
     ck.floor('R10.6', n, 12, 'report sites')
     d = ck.fn('Store.delete', 'core.store')
     cfg = cfg_of(d.node)
-    ok = any(isinstance(s, ast.Assign) and A.is_name(
-        s.targets[0], A.params_of(d.node)[2])
+    hp = A.params_of(d.node)[2]
+    ok = any(isinstance(s, ast.Assign) and isinstance(
+        s.targets[0], ast.Name)
              and isinstance(s.value, ast.Call) and A.call_name(
                  s.value) == 'path_for' and A.is_name(
-                 A.call_receiver(s.value), 'self')
+                 A.call_receiver(s.value), 'self') and (
+                 'is', hp, 'None') in cfg.guards(cfg.node(s))
              for s in A.walk_no_nested(d.node))
     ck.require(ok, 'R10.6', d, 'here', "delete's `here` defaults to "
                'self.path_for()', None)
@@ -1024,9 +1044,9 @@ def r10_11(ck, rule='R10.11'):
             'entry over instead of dropping it')
     ea = ck.fn('Engine.apply_update', 'core.engine')
     dp = ck.fn('Engine._delete_path', 'core.engine')
-    rd = ck.fn('Engine._remove_deleted_processes', 'core.engine')
+    rd = ck.fn_opt('Engine._remove_deleted_processes', 'core.engine')
     carried = False
-    for f in (ea, dp, rd):
+    for f in [x for x in (ea, dp, rd) if x is not None]:
         for s2 in A.walk_no_nested(f.node):
             if isinstance(s2, ast.Assign) and isinstance(
                     s2.targets[0], ast.Subscript) and A.is_self_attr(
